@@ -42,6 +42,9 @@ func c07Valid(rng *rand.Rand, n int) []byte {
 
 func c07Mutate(rng *rand.Rand, der []byte) ([]byte, string) {
 	b := append([]byte{}, der...)
+	if len(b) == 0 {
+		return b, "empty"
+	}
 	// positions of plausible length bytes: walk the top-level structure roughly
 	pos := rng.Intn(len(b))
 	switch rng.Intn(9) {
